@@ -72,7 +72,7 @@ def run(ctx: core.Ctx) -> int:
     kinds = [k for k in X.KINDS if k != "AMORPH"]
     for _ in range(ctx.n(420, 5000)):
         regime = rng.choice(DEGENERATE)
-        c = E.gen_case(rng, ctx, kinds, allow_ha=False, regimes=[regime], inputs_base=("close", "close", "high", "volume"))
+        c = E.gen_case(rng, ctx, kinds, allow_ha=False, regimes=[regime], inputs_base=("close", "close", "high", "volume", "src", "dd.x"))
         c["meta"]["regime"] = regime
         cases.append(c)
     for i, c in enumerate(cases):
